@@ -80,6 +80,11 @@ def expected(ops, factory):
             out.append("ok")
         elif op == "updn" and len(t) == 2:
             out.append("ok")
+        elif op == "strf" and len(t) == 1:
+            # the read whose result string cannot be allocated: NULL, the digest is final from here on
+            if not s.closed:
+                s.closed, s.dig = True, s.obj.hexdigest()
+            out.append("null")
         elif op == "str" and len(t) == 1:
             if not s.closed:
                 s.closed, s.dig = True, s.obj.hexdigest()
